@@ -66,15 +66,19 @@ def one_case(c):
     try:
         sock = env.ScriptSock(b"")
         ks = None
+        cfg = c.get("cfg") or ""
+        kw = {"enable_multithread": False} if "nomt" in cfg else {}
         if c["keysrc"] == "default":
-            ws = env.make_ws(sock)
+            ws = env.make_ws(sock, **kw)
         else:
             ks = KeySrc(c["keysrc"])
             if c.get("via_ctor"):
-                ws = env.make_ws(sock, get_mask_key=ks)
+                ws = env.make_ws(sock, get_mask_key=ks, **kw)
             else:
-                ws = env.make_ws(sock)
+                ws = env.make_ws(sock, **kw)
                 ws.set_mask_key(ks)
+        if "timeout" in cfg:
+            ws.settimeout(5)
         payload = c["payload"]
         op, fin, entry = c["op"], c["fin"], c["entry"]
         if isinstance(payload, str):
@@ -85,6 +89,8 @@ def one_case(c):
             arg = bytearray(payload) if c["ptype"] == "bytearray" else bytes(payload)
         ret = "n/a"
         sig0 = {"entry": entry, "op": op, "keysrc": c["keysrc"]}
+        if cfg:
+            sig0["cfg"] = cfg
         if entry == "send":
             ret = ws.send(arg, op)
         elif entry == "send_default":
@@ -194,7 +200,7 @@ def run_task(desc):
                 raise
             fail = (dict(v.sig, entry=c["entry"], op=c["op"]), v.what)
         res["execs"] += 1
-        seen.add((c["entry"], c["op"], c["fin"], c["ptype"], c["keysrc"], c["trace"], len(c["payload"]), c.get("ck"), c.get("status")))
+        seen.add((c["entry"], c["op"], c["fin"], c["ptype"], c["keysrc"], c["trace"], len(c["payload"]), c.get("ck"), c.get("status"), c.get("cfg")))
         if fail is not None:
             rc = dict(c)
             if len(c["payload"]) > 64:
@@ -235,6 +241,10 @@ def run_task(desc):
                                         run(mk(entry, op, fin, ptype, keysrc, trace, n, ck, status))
                                 else:
                                     run(mk(entry, op, fin, ptype, keysrc, trace, n, ck, via_ctor=(n % 2 == 1)))
+                                    if ck in ("ramp", "text-1b") and not trace:
+                                        # the same frame on a connection without locks (enable_multithread=False) and / or with a socket timeout
+                                        for cfg in ("nomt", "timeout", "nomt+timeout"):
+                                            run(dict(mk(entry, op, fin, ptype, keysrc, trace, n, ck, via_ctor=(n % 2 == 0)), cfg=cfg))
         res["samples"].append({"entry": entry, "opcode": op, "boundary_lengths": BOUNDARY[:12]})
     elif part == "bytes2":
         for a in range(desc["lo"], desc["hi"]):
